@@ -70,6 +70,9 @@ func (w *World) InitSpecs() {
 	// direct reads and calls
 	for _, k := range keys {
 		sf := w.Specs[k]
+		if c := w.CS.ByKey[k]; c != nil && c.Flags["opaque"] {
+			continue
+		}
 		w.scanSpec(sf)
 	}
 	// transitive closure
@@ -117,6 +120,9 @@ func (w *World) InitSpecs() {
 		w.BG.Funs[sf.Sym] = FunSig{Name: sf.Sym, Args: args, Res: sf.ResSort}
 	}
 	for _, k := range keys {
+		if c := w.CS.ByKey[k]; c != nil && c.Flags["opaque"] {
+			continue // uninterpreted: constrained by axioms only (the Go body is used by replay harnesses)
+		}
 		w.defineSpec(w.Specs[k])
 	}
 	// trusted / declared axioms over logic functions
